@@ -19,7 +19,9 @@ RULE = ("stream 1 (indentation only, no banner/macro start): exhaustive, every s
         "Coverage stream (harness/covreport.py, notes/coverage/C02.json): one random case in eight of both streams is parsed under one more "
         "parse option set -- config as a tuple, debug 1/2/4/5 (executes the 'if debug' statements of bootstrap, "
         "_build_bootstrap_parent_child and _add_child_to_parent, debug >= 4 included), auto_commit=False, auto_indent_width 0/3/8 -- "
-        "none of which is an input of the model: the links must not change. "
+        "none of which is an input of the model: the links must not change. 10-15 % of the random cases of both streams use a comment "
+        "delimiter set beyond the four standard ones (a letter, a brace, the euro sign, a tab or blank, duplicates, three at once, "
+        "banner delimiter characters). "
         "non-trivial = some line is indented or a banner / macro start is present; distinct by request.")
 LEVEL_TEXT = ("Theorems (Lean 4, all line lists, no size bound): cache_inv -- the parent cache of the bootstrap loop is sound (every cached "
               "entry k->p is the walk-back answer for indent k over the processed lines and 0 < k <= max_indent; holds initially, preserved "
@@ -93,7 +95,7 @@ def cases(rng, tier):
             k += 1
     n = {"quick": 1500, "thorough": 60000, "search": 4000}[tier]
     for _ in range(n):
-        delims = rng.choice(T.DELIM_SETS)
+        delims = rng.choice(T.DELIM_SETS) if rng.random() < 0.85 else rng.choice(T.EXOTIC_DELIM_SETS)
         # one case in eight runs under one more parse option set (tuple config, debug 1..5, auto_commit off, auto_indent_width):
         # the `if debug` statements of the anchored loop are executed and must not change the links
         yield T.with_options(mk(rng.choice(T.SYNTAXES), rng.random() < 0.15, delims, rand_lines(rng, delims)), T.rand_options(rng, 0.125))
@@ -105,7 +107,7 @@ def cases(rng, tier):
             k += 1
     n2 = {"quick": 2400, "thorough": 60000, "search": 4000}[tier]
     for k in range(n2):
-        delims = rng.choice(T.DELIM_SETS)
+        delims = rng.choice(T.DELIM_SETS) if rng.random() < 0.9 else rng.choice(T.EXOTIC_DELIM_SETS)
         lines = T.rand_link_config(rng, delims) if k % 2 == 0 else T.rand_nested_config(rng, delims)
         yield T.with_options(mk(rng.choice(["ios", "ios"] + T.SYNTAXES), rng.random() < 0.1, delims, lines,
                                 "link-random" if k % 2 == 0 else "link-nested", rng.random() < 0.25), T.rand_options(rng, 0.125))
